@@ -37,28 +37,44 @@ def _nl(b: bytes) -> str:
     return '[' + ';'.join(str(x) for x in b) + ']'
 
 
+def coq_attr(rec: list, encoding: str) -> str:
+    def s(x: str) -> str:
+        return _nl(x.encode(encoding))
+    name, typ, is_arr, vals = rec
+    if typ == 'ELEMENT':
+        items = ['RNull' if v is None else (f'(RElem {v})' if isinstance(v, int)
+                 else f'(RStub {_nl(str(uuidmod.UUID(hex=v[1])).encode("ascii"))})') for v in vals]
+        mk = 'VElem'
+    elif typ == 'STRING':
+        items, mk = [s(v) for v in vals], 'VStr'
+    elif typ == 'BINARY':
+        items, mk = [_nl(bytes.fromhex(v)) for v in vals], 'VBin'
+    else:
+        items, mk = [_nl(wire_bytes(typ, v)) for v in vals], f'VFix {COQ_TYPE[typ]}'
+    shape = f'(Array {coq_list(items)})' if is_arr else f'(Scalar {items[0]})'
+    return f'{{| aname := {s(name)}; adata := {mk} {shape} |}}'
+
+
 def coq_doc(c: dict, encoding: str) -> str:
     """A canonical spec as a Coq [doc] literal; strings are pre-encoded (the model runs with the identity codec)."""
     def s(x: str) -> str:
         return _nl(x.encode(encoding))
     els = []
     for e in c['elems']:
-        attrs = []
-        for name, typ, is_arr, vals in e['attrs']:
-            if typ == 'ELEMENT':
-                items = ['RNull' if v is None else (f'(RElem {v})' if isinstance(v, int)
-                         else f'(RStub {_nl(str(uuidmod.UUID(hex=v[1])).encode("ascii"))})') for v in vals]
-                mk = 'VElem'
-            elif typ == 'STRING':
-                items, mk = [s(v) for v in vals], 'VStr'
-            elif typ == 'BINARY':
-                items, mk = [_nl(bytes.fromhex(v)) for v in vals], 'VBin'
-            else:
-                items, mk = [_nl(wire_bytes(typ, v)) for v in vals], f'VFix {COQ_TYPE[typ]}'
-            shape = f'(Array {coq_list(items)})' if is_arr else f'(Scalar {items[0]})'
-            attrs.append(f'{{| aname := {s(name)}; adata := {mk} {shape} |}}')
+        attrs = [coq_attr(a, encoding) for a in e['attrs']]
         els.append(f'{{| etype := {s(e["type"])}; ename := {s(e["name"])}; '
                    f'euuid := {_nl(uuidmod.UUID(hex=e["uuid"]).bytes_le)}; eattrs := {coq_list(attrs)} |}}')
+    return coq_list(els)
+
+
+def coq_rdoc(c: dict, encoding: str) -> str:
+    """The real dicts of a canonical graph (U.canon: 'members', the name member included) as a Coq [rdoc] literal."""
+    def s(x: str) -> str:
+        return _nl(x.encode(encoding))
+    els = []
+    for e in c['elems']:
+        ms = [f'({s(k)}, {coq_attr(rec, encoding)})' for k, rec in e['members']]
+        els.append(f'{{| r_type := {s(e["type"])}; r_uuid := {_nl(uuidmod.UUID(hex=e["uuid"]).bytes_le)}; r_members := {coq_list(ms)} |}}')
     return coq_list(els)
 
 
@@ -69,7 +85,7 @@ MANIFEST = dict(
 )
 
 IMPORTS = ['Coq.NArith.NArith', 'Coq.ZArith.ZArith', 'Coq.Lists.List', 'Coq.Bool.Bool', 'SV.Fmt.DmxCodes', 'SV.Fmt.DmxBin',
-           'SV.Fmt.DmxKv1', 'SV.Fmt.DmxScalar', 'SV.Text.Str', 'SV.Text.Tokenizer', 'SV.Text.TokGen', 'SV.Fmt.DmxKv2',
+           'SV.Fmt.DmxMembers', 'SV.Fmt.DmxKv1', 'SV.Fmt.DmxScalar', 'SV.Text.Str', 'SV.Text.Tokenizer', 'SV.Text.TokGen', 'SV.Fmt.DmxKv2',
            'SV.Num.Dec6', 'SV.Fmt.DmxValText', 'SV.Fmt.DmxHeader', 'SV.Gen.DmxCodes_gen', 'SV.Fmt.DmxKv2Inst']
 PRE_BIN = '''Import ListNotations. Open Scope N_scope.
 Definition idenc (_ : enc) (s : str) : bytes := s.
@@ -85,9 +101,16 @@ Definition aval_eqb (a b : aval) := match a, b with
 Definition attr_eqb (a b : attr) := nl_eqb (aname a) (aname b) && aval_eqb (adata a) (adata b).
 Definition elem_eqb (a b : elem) := nl_eqb (etype a) (etype b) && nl_eqb (ename a) (ename b) && nl_eqb (euuid a) (euuid b) && leqb attr_eqb (eattrs a) (eattrs b).
 Definition odoc_eqb (a b : option doc) := match a, b with Some x, Some y => leqb elem_eqb x y | None, None => true | _, _ => false end.
-(* result code per case: 0 ok, 1 model export differs from implementation bytes, 2 model parse differs *)
-Definition chk (c : N * doc * bytes * option doc) : N := let '(v, d, b, p) := c in
-  if nl_eqb (export_bin idenc gen_cfg v d) b then (if odoc_eqb (parse_bin iddec gen_cfg v b) p then 0 else 2) else 1.
+(* result code per case: 0 ok, 1 model export differs from implementation bytes, 2 model parse differs,
+   3 the export of the real dicts (count expression and loop filters read from the source) differs from the bytes,
+   4 the document the real dicts denote differs from the document the harness computed from the spec and its history *)
+Definition chk (c : N * doc * bytes * option doc * rdoc) : N := let '(v, d, b, p, rd) := c in
+  if nl_eqb (export_bin idenc gen_cfg v d) b
+  then (if odoc_eqb (parse_bin iddec gen_cfg v b) p
+        then (if nl_eqb (export_raw idenc gen_cfg gen_cnt v rd) b
+              then (if odoc_eqb (Some (map (abstract gen_cnt) rd)) (Some d) then 0 else 4) else 3)
+        else 2)
+  else 1.
 Fixpoint bad_idx {A} (f : A -> N) (n : N) (l : list A) : list N := match l with [] => [] | x :: r => (if f x =? 0 then [] else [n * 10 + f x]) ++ bad_idx f (n + 1) r end.
 '''
 
@@ -219,15 +242,20 @@ def corr_binary(ck: Ck) -> None:
             spec, mode = corpus[i]
         else:
             mode = rand_mode(ck.rng, 'binary')
-            spec = U.gen_spec(ck.rng, mode['unicode'] != 'ascii', allow_time=mode['version'] >= 3)
+            spec = U.gen_spec(ck.rng, mode['unicode'] != 'ascii', allow_time=mode['version'] >= 3, histories=0.25)
+            if ck.rng.random() < 0.05:      # the name assigned as an attribute spelled in another case
+                spec['elems'][0]['attrs'].insert(ck.rng.randint(0, len(spec['elems'][0]['attrs'])), [ck.rng.choice(['Name', 'NAME']), 'STRING', False, ['nm']])
         c = U.reachable_canon(spec)
-        if any(a[0].casefold() == 'name' for e in c['elems'] for a in e['attrs']):
-            continue        # the reserved name attribute is outside the model (searched only)
         try:
+            real = U.canon(U.build(spec)[0])
             data = U.export_bytes(spec, mode['version'], mode['unicode'])
         except Exception:
             ck.count('corr_binary_export_error')
             continue
+        if any(e['members'] is None for e in real['elems']):
+            continue
+        for e in c['elems']:
+            ck.hist('corr_binary_name_member', 'missing' if not e['has_name'] else ('first' if not e['name_pos'] else 'later'))
         cut = data.find(b'-->\n\0')
         body = data[cut + 5:]
         try:
@@ -237,7 +265,7 @@ def corr_binary(ck: Ck) -> None:
         except Exception:
             pl = 'None'
             ck.count('corr_binary_impl_parse_error')
-        cases.append((mode, spec, f'({mode["version"]}, {coq_doc(c, "utf8")}, {_nl(body)}, {pl})'))
+        cases.append((mode, spec, f'({mode["version"]}, {coq_doc(c, "utf8")}, {_nl(body)}, {pl}, {coq_rdoc(real, "utf8")})'))
         ck.count('corr_binary_cases')
         ck.hist('corr_binary_version', mode['version'])
         if len(c['elems']) > 1 or any(e['attrs'] for e in c['elems']):
@@ -260,7 +288,9 @@ def corr_binary(ck: Ck) -> None:
         i, code = bad[0]
         ck.tie_broken.append('correspondence binary (Fmt/DmxBin.v vs export_binary/parse_bin)')
         ck.extra['binary_disagreement'] = {'mode': cases[i][0], 'spec': cases[i][1],
-                                           'kind': {1: 'model export bytes differ', 2: 'model parse differs'}.get(code, code)}
+                                           'kind': {1: 'model export bytes differ', 2: 'model parse differs',
+                                                    3: 'export_raw (count expression / loop filters from the source, on the real dicts) differs from the bytes',
+                                                    4: 'the document the real dicts denote differs from the simulated history'}.get(code, code)}
 
 
 
@@ -1321,6 +1351,10 @@ OBLIGATIONS = {
     'kv2_color_text_components': 'color_text_ok gen_color_text_written gen_color_text_read',
     'kv2_scalar_text_functions': 'scalar_text_funcs_ok gen_int_text_funcs gen_float_text_funcs',
     'kv2_binary_text_is_spaced_upper_hex': 'hex_text_ok gen_hex_sep gen_hex_group gen_hex_upper',
+    'attr_count_is_number_of_records': 'count_expr_ok gen_cnt',
+    'attr_record_loop_skips_the_name_key': 'write_filter_ok gen_cnt',
+    'collecting_loop_skips_what_the_record_loop_skips': 'collect_filter_ok gen_cnt',
+    'element_name_reads_the_name_member': 'name_getter_ok gen_cnt',
     'kv1_element_types_distinct': 'kv1_types_distinct gen_kv1',
     'kv1_keys_written_are_keys_read': 'kv1_keys_agree gen_kv1',
     'kv1_reserved_names_cover_name_and_subkeys': 'kv1_reserved_covers gen_kv1',
@@ -1352,6 +1386,10 @@ EXPLAIN = {
     'instance:time_scale_written_is_scale_read': ['binary', 'time'],
     'instance:matrix_cells_read_where_written': ['binary', 'matrix'],
     'instance:matrix_pack_has_16_slots': ['binary', 'matrix'],
+    'instance:attr_count_is_number_of_records': ['binary', 'element-without-name-member'],
+    'instance:attr_record_loop_skips_the_name_key': ['binary', ''],
+    'instance:collecting_loop_skips_what_the_record_loop_skips': ['binary', ''],
+    'instance:element_name_reads_the_name_member': ['', 'element-without-name-member'],
     'correspondence:scalar-codecs': ['binary', ''],
     'correspondence:binary': ['binary', ''],
 }
